@@ -108,7 +108,7 @@ Lemma ANS_aput : forall j id a l, keys_ok l -> ANS j (aput id a l) = ANS j l - a
 Proof. intros j id a l K. unfold aput. simpl. rewrite (ANS_adel j id l K). lia. Qed.
 
 (* ---------------------------------------------------------------- side conditions and frames *)
-Definition pa1 (a : answer) : Prop := noemb (a_args a) /\ (a_ret a = true -> a_args a = []).
+Definition pa1 (a : answer) : Prop := noemb (a_args a) /\ (a_ret a = true -> a_args a = []) /\ (a_ret a = false -> a_rct a = []).
 Definition PA (l : list (Z * answer)) : Prop := forall id a, In (id, a) l -> pa1 a.
 Definition EN (t : tbl expent) : Prop := forall x w, In (Some (x, w)) t -> not_emb x.
 Definition EC (t : tbl embent) : Prop := forall em, In (Some em) t -> not_emb (e_cap em).
@@ -525,7 +525,7 @@ Proof.
     intros j. rewrite D, X0. reflexivity.
   - inversion H; subst. destruct Ai as (K & P & He & Hx). split; [repeat split|split; [|split]].
     + split; [apply keys_aput; exact K|split; [|split; [exact He|exact Hx]]].
-      apply PA_aput; [exact P|]. split; simpl; [rewrite Ha; constructor|intros _; exact Ha].
+      apply PA_aput; [exact P|]. split; [simpl; rewrite Ha; constructor|split; [intros _; exact Ha|simpl; discriminate]].
     + intros i Hi. cbn [s_ans set_ans]. rewrite aget_aput. replace (i =? id) with false by lia. reflexivity.
     + intros j. rewrite X_set_ans. cbn [s_ans]. change (s_ans s0) with (s_ans s). rewrite (ANS_aput j id _ _ K), X0.
       unfold aw. cbn [a_args a_rct mark_done]. rewrite Ha. simpl. lia.
@@ -548,7 +548,7 @@ Proof.
     + intros j. rewrite D, X2. change (s_ans s2) with (s_ans sf). rewrite A0. reflexivity.
   - inversion H; subst. split; [eapply FH_trans; [exact F2|repeat split]|split; [|split]].
     + destruct A2 as (K2 & P2 & He2 & Hx2). split; [apply keys_aput; exact K2|split; [|split; [exact He2|exact Hx2]]].
-      apply PA_aput; [exact P2|]. split; simpl; [rewrite Ha; constructor|intros _; exact Ha].
+      apply PA_aput; [exact P2|]. split; [simpl; rewrite Ha; constructor|split; [intros _; exact Ha|simpl; discriminate]].
     + intros i Hi. cbn [s_ans set_ans]. rewrite aget_aput. replace (i =? id) with false by lia. change (s_ans s2) with (s_ans sf). rewrite A0. reflexivity.
     + intros j. rewrite X_set_ans. cbn [s_ans]. change (s_ans s2) with (s_ans sf). rewrite A0. rewrite (ANS_aput j id _ _ K), X2.
       unfold aw. cbn [a_args a_rct]. rewrite Ha. simpl. lia.
@@ -557,7 +557,7 @@ Qed.
 Lemma rf_reject : forall id a s s1 o ab, reject cfg_fixed id a s = Ok (s1, o, ab) -> AI s -> pa1 a ->
   FH s s1 /\ AI s1 /\ OT id s s1 /\ forall j, X j s1 = X j s + awo j (aget id (s_ans s)) - aw j a.
 Proof.
-  intros id a s s1 o ab H (K & P & He & Hx) [Na Ra]. unfold reject in H.
+  intros id a s s1 o ab H (K & P & He & Hx) (Na & Ra & Rc). unfold reject in H.
   destruct (release_caps cfg_fixed (a_args a) s) as [[s0 o0]| |] eqn:E0; simpl in H; try discriminate.
   destruct (send_exception cfg_fixed id (set_a_args [] a) s0) as [[[s2 o2] b2]| |] eqn:E2; simpl in H; try discriminate.
   inversion H; subst. destruct (rf_release_caps_ne _ _ _ _ E0 Na) as (A0 & B0 & C0 & X0). unfold FA in A0.
